@@ -29,7 +29,8 @@ import (
 const nhNodeID = "dtn://node/"
 
 type nhSend struct {
-	Peer    string
+	Peer    string // peer node
+	Via     string // convergence adapter (differs from Peer for a second adapter to the same node)
 	Enc     []byte
 	OK      bool
 	At      time.Time // virtual time of the send
@@ -48,8 +49,12 @@ func (p *nhPeer) Close() error                        { return nil }
 func (p *nhPeer) Channel() chan cla.ConvergenceStatus { return p.ch }
 func (p *nhPeer) Address() string                     { return "mock://" + p.name }
 func (p *nhPeer) IsPermanent() bool                   { return true }
-func (p *nhPeer) GetPeerEndpointID() bpv7.EndpointID  { return gen.MustEID("dtn://" + p.name + "/") }
+func (p *nhPeer) GetPeerEndpointID() bpv7.EndpointID  { return gen.MustEID("dtn://" + p.node() + "/") }
 func (p *nhPeer) String() string                      { return "mock-" + p.name }
+
+// node is the name of the peer node: a convergence adapter named "r1#2" is a second adapter (another address) to
+// the node r1. Sends are recorded under the node name, which is what the oracles reason about.
+func (p *nhPeer) node() string { return strings.SplitN(p.name, "#", 2)[0] }
 
 // Send serialises the bundle inside the call, like real convergence layers do,
 // and answers with the scripted outcome. Each Send is a schedule point for
@@ -63,7 +68,7 @@ func (p *nhPeer) Send(b bpv7.Bundle) error {
 	if err != nil {
 		p.n.sendErrs = append(p.n.sendErrs, fmt.Sprintf("%s: bundle handed to Send cannot be serialised: %v", p.name, err))
 	}
-	p.n.sends = append(p.n.sends, nhSend{Peer: p.name, Enc: buf.Bytes(), OK: ok && err == nil, At: vtime.Now(), EventNo: p.n.eventNo})
+	p.n.sends = append(p.n.sends, nhSend{Peer: p.node(), Via: p.name, Enc: buf.Bytes(), OK: ok && err == nil, At: vtime.Now(), EventNo: p.n.eventNo})
 	p.n.mu.Unlock()
 	vrt.Point("mock.Send.done:" + p.name)
 	if !ok || err != nil {
@@ -335,6 +340,38 @@ func (n *nhNode) receive(b bpv7.Bundle, from string) {
 
 func (n *nhNode) submit(b bpv7.Bundle) { n.core.SendBundle(&b) }
 
+// submitID submits the bundle and returns the ID the node assigned to it (SendBundle sets the sequence number).
+func (n *nhNode) submitID(b bpv7.Bundle) bpv7.BundleID {
+	n.core.SendBundle(&b)
+	return b.ID().Scrub()
+}
+
+// assignedID finds the ID under which a locally submitted bundle with this payload left the node during the
+// current event or is filed in the store (the agent path hands the node a copy, so the caller's bundle is not
+// updated); ok is false if neither shows it.
+func (n *nhNode) assignedID(payload []byte, sendsFrom int) (bpv7.BundleID, bool) {
+	if pend, err := n.core.VerifStore().QueryPending(); err == nil {
+		for _, bi := range pend {
+			if len(bi.Parts) != 1 {
+				continue
+			}
+			if sb, lerr := bi.Parts[0].Load(); lerr == nil && bytes.Equal(payloadOf(&sb), payload) {
+				return sb.ID().Scrub(), true
+			}
+		}
+	}
+	for _, s := range n.sendsSince(sendsFrom) {
+		if rb, err := ref.Decode(s.Enc); err == nil {
+			if pl, ok := rb.Payload(); ok && bytes.Equal(pl, payload) {
+				if sb, perr := gen.Parse(s.Enc); perr == nil {
+					return sb.ID().Scrub(), true
+				}
+			}
+		}
+	}
+	return bpv7.BundleID{}, false
+}
+
 // submitViaAgent sends the bundle through the application agent path.
 func (n *nhNode) submitViaAgent(b bpv7.Bundle) {
 	n.agent.sender <- agent.BundleMessage{Bundle: b}
@@ -402,6 +439,20 @@ func (n *nhNode) storeInfo(bid bpv7.BundleID) nhStoreInfo {
 }
 
 func (n *nhNode) connectedPeers() []string {
+	seen := map[string]bool{}
+	var out []string
+	for _, p := range n.peers {
+		if p.up && !seen[p.node()] {
+			seen[p.node()] = true
+			out = append(out, p.node())
+		}
+	}
+	sort.Strings(out)
+	return out
+}
+
+// connectedAdapters lists the active convergence adapters (state matching distinguishes them).
+func (n *nhNode) connectedAdapters() []string {
 	var out []string
 	for name, p := range n.peers {
 		if p.up {
